@@ -91,16 +91,6 @@ theorem C14_shape_complete (ks : List CmdKind) (h : atomicShape ks = false) :
   obtain ⟨fault, _, hb⟩ := complete_aux ks ShapeSt.init 0 0 (Conn.idle 0) CInv.init hbad
   exact ⟨fault, hb⟩
 
-theorem incCmds_total (ks : List CmdKind) : ∀ x ∈ incCmds ks, x.total := by
-  induction ks with
-  | nil => intro x hx; simp [incCmds] at hx
-  | cons k ks ih =>
-    intro x hx
-    cases k <;> simp only [incCmds, List.mem_cons] at hx <;> rcases hx with hx | hx
-    all_goals first
-      | exact ih x hx
-      | (subst hx; simp [Cmd.total])
-
 /-- **The monitor is exactly right.**  The kinds form an atomic shape iff every
 call with these kinds — over any database type, with any write functions — is
 failure-atomic under every fault plan, never leaves a transaction open, and
